@@ -76,7 +76,7 @@ def plan(tier, seed):
     units += [("bounds",), ("late",)] + [("lines", i) for i in range(4)]
     units += [("breaks", i) for i in range(len(BREAKS))]
     units += [("calls", tier, ci) for ci in range(len(CALLS))]
-    units += [("hex", case) for case in ("lower", "upper", "mixed")]
+    units += [("hex", case) for case in ("lower", "upper", "mixed")] + [("buffer",)]
     units += [("xor", c) for c in range(3)] + [("xorguess",)] + [("psbytes", i) for i in range(4)]
     units += [("stream", u) for u in streams.plan(tier, fams=STREAM_FAMS)]
     units += core.interp_axis([("bounds",), ("late",), ("hex", "mixed"), ("xorguess",), ("psbytes", 0)])
@@ -111,8 +111,8 @@ def abs_nodes(tree):
 # ---- forward oracle on one node -----------------------------------------------------------------------------
 
 
-def forward(rec, n, orig, w, size):
-    """n: node; orig: the text it replaced."""
+def forward(rec, n, orig, w, size, searched=None):
+    """n: node; orig: the text it replaced; searched: the whole text the decoder was given (the script that states the xor key)."""
     lab = n.obfuscation
     if lab == "encoding.base64":
         rec.count("transitions")
@@ -138,6 +138,9 @@ def forward(rec, n, orig, w, size):
             if not 0 <= key <= 255 or c.value != bytes(b ^ key for b in n.value):
                 rec.violation("C13.xor.value", "xor-single-byte", w,
                               f"xor child labelled {c.obfuscation!r} is not parent XOR {key}: parent {core.short(n.value, 40)} child {core.short(c.value, 40)}", size)
+            if searched is not None and 0 <= key <= 255 and codec_ref.stated_xor_key(searched) != key:
+                rec.violation("C13.xor.value", "xor-key-not-the-stated-one", w,
+                              f"xor child labelled {c.obfuscation!r} but the searched text states key {codec_ref.stated_xor_key(searched)!r}", size)
             if (c.start, c.end) != (0, len(n.value)) and (c.start, c.end) != (0, len(c.value)):
                 rec.violation("C13.xor.span", "xor-span", w, f"xor child span ({c.start},{c.end}) does not cover the parent value (len {len(n.value)})", size)
         elif c.obfuscation == "cipher.multibyte_xor":
@@ -164,7 +167,7 @@ def scan_and_check(rec, data, w, expect=None, forbid_label_at=None):
         if h is None or n.obfuscation not in DEC_LABELS and not any(c.obfuscation.startswith("cipher.") for c in n.children):
             continue
         found = True
-        forward(rec, n, h[3][h[4] : h[5]], w, len(data))
+        forward(rec, n, h[3][h[4] : h[5]], w, len(data), searched=h[3])
     if expect is not None:
         label, typ, a, b, value = expect
         cands = [(n, s) for n, s in abs_nodes(tree) if n.obfuscation == label and s <= a and s + (n.end - n.start) >= b or (n.obfuscation == label and a <= s < b)]
@@ -385,6 +388,39 @@ def run_unit(unit, rec):
                 rec.mark("states", data, True)
                 scan_and_check(rec, data, {"kind": "xor", "data": data})
         rec.sample({"family": "xor-keys", "carrier": c[:40], "last": data[-30:]})
+    elif kind == "buffer":
+        # the caller scans block after block out of ONE reusable bytearray that it refills in place (stream.readinto): what a scan reports
+        # is a function of the bytes in the buffer at that moment
+        blocks = [b"$k = 1 -bxor 35 ; nothing to decode here", b"[System.Convert]::FromBase64String('R1ZASEdWQEg=') -bxor 77", b"FromHexString('4756404803444c4650035256424048')",
+                  b"FromHexString('4756404803444c4650035256424048') -xor 9", b"x QUJDREVGR0hJSktMTU5PUFFSU1RVVldYWVo= y", b"no key, FromBase64String('R1ZASEdWQEg=')"]
+        n = 0
+        # reference trees first (bytes objects): no other buffer is searched between two scans of the reused one
+        expected = {(bi, depth): trees.tup(Multidecoder(streams.registry()).scan(blocks[bi], depth)) for bi in range(len(blocks)) for depth in (10, 1)}
+        for depth in (10, 1):
+            for hist in itertools.product(range(len(blocks)), repeat=3):
+                buf = bytearray()
+                for bi in hist:
+                    buf[:] = blocks[bi]
+                    w = {"kind": "buffer", "history": list(hist), "depth": depth}
+                    rec.count("evaluations")
+                    rec.mark("states", ("buffer", hist, depth, n), True)
+                    ok, res = rec.guard("C13.total", w, len(buf), trees.iscan, streams.registry(), buf, depth)
+                    n += 1
+                    if not ok:
+                        continue
+                    rec.count("traces")
+                    tree, log = res
+                    fresh = expected[(bi, depth)]
+                    if trees.tup(tree) != fresh:
+                        rec.violation("C13.converse", "reused-buffer-tree-differs", w,
+                                      f"block {blocks[bi][:40]!r} scanned out of a reused bytearray (history {hist}, depth {depth}) gives {core.short(trees.tup(tree)[5], 200)}; "
+                                      f"the same bytes scanned as bytes give {core.short(fresh[5], 200)}", len(buf))
+                        break
+                    for nd in trees.walk(tree):
+                        h = log.hits.get(id(nd))
+                        if h is not None and (nd.obfuscation in DEC_LABELS or any(c.obfuscation.startswith("cipher.") for c in nd.children)):
+                            forward(rec, nd, bytes(h[3][h[4] : h[5]]), w, len(buf), searched=bytes(h[3]))
+        rec.sample({"family": "reused-bytearray-buffer", "blocks": len(blocks), "histories": n})
     elif kind == "psbytes":
         fmts = [lambda v: b"%d" % v, lambda v: b"0x%02x" % v, lambda v: b"0X%02X" % v, lambda v: b"%03d" % v]
         seps = [b",", b", ", b",\n", b",  \t"]
@@ -446,6 +482,9 @@ def stream_monitor(rec, case):
 
 def replay(w, rec):
     k = w.get("kind")
+    if k == "buffer":
+        run_unit(("buffer",), rec)
+        return
     if k == "psbytes":
         run_unit(("psbytes", [b",", b", ", b",\n", b",  \t"].index(w["sep"])), rec)
         return
